@@ -1,6 +1,5 @@
 import WhatwgUrl.Impl.Api
 import WhatwgUrl.Spec.Url
-import WhatwgUrl.Generated.Facts
 import WhatwgUrl.Proofs.Ranges
 /-
   C01 — parsing conforms to the WHATWG basic URL parser.
@@ -39,43 +38,5 @@ theorem C01_parse_conforms_counterexample : ¬ C01_parse_conforms_Statement := b
   have := h (fun s => (s, false)) [0x78, 0x3a, 0xc3, 0x0a, 0xa9] none
   revert this
   decide +kernel
-
-/-- the default special-scheme table (regenerated from the Go code) is the standard's -/
-theorem C01_special_schemes :
-    Generated.defaultSpecialSchemes = [("file", ""), ("ftp", "21"), ("http", "80"), ("https", "443"), ("ws", "80"), ("wss", "443")] ∧
-    (Cfg.default.specialSchemes.map fun p => (goRunes p.1, if p.2 = [] then none else some (digitsVal 10 p.2))) = Spec.specialSchemes := by
-  constructor <;> decide
-
-/-- every percent-encode set the parser consults, as regenerated from the Go code by executing `RuneShouldBeEncoded` on
-    all code points, is the standard's set — for every scalar value -/
-theorem C01_tables :
-    (∀ c, c ≤ 0x10ffff → inRanges Generated.set_c0 c = Spec.c0ControlSet c) ∧
-    (∀ c, c ≤ 0x10ffff → inRanges Generated.set_fragment c = Spec.fragmentSet c) ∧
-    (∀ c, c ≤ 0x10ffff → inRanges Generated.set_query c = Spec.querySet c) ∧
-    (∀ c, c ≤ 0x10ffff → inRanges Generated.set_specialQuery c = Spec.specialQuerySet c) ∧
-    (∀ c, c ≤ 0x10ffff → inRanges Generated.set_path c = Spec.pathSet c) ∧
-    (∀ c, c ≤ 0x10ffff → inRanges Generated.set_userinfo c = Spec.userinfoSet c) := by
-  refine ⟨?_, ?_, ?_, ?_, ?_, ?_⟩
-  · exact inRanges_lift _ _ (by decide) (by intro c hc; simp [Spec.c0ControlSet, hc]) (by decide)
-  · exact inRanges_lift _ _ (by decide) (by intro c hc; simp [Spec.fragmentSet, Spec.c0ControlSet, hc]) (by decide)
-  · exact inRanges_lift _ _ (by decide) (by intro c hc; simp [Spec.querySet, Spec.c0ControlSet, hc]) (by decide)
-  · exact inRanges_lift _ _ (by decide) (by intro c hc; simp [Spec.specialQuerySet, Spec.querySet, Spec.c0ControlSet, hc]) (by decide)
-  · exact inRanges_lift _ _ (by decide) (by intro c hc; simp [Spec.pathSet, Spec.querySet, Spec.c0ControlSet, hc]) (by decide)
-  · exact inRanges_lift _ _ (by decide) (by intro c hc; simp [Spec.userinfoSet, Spec.pathSet, Spec.querySet, Spec.c0ControlSet, hc]) (by decide)
-
-/-- forbidden host / domain code points and the character classes, as regenerated from the Go bit sets -/
-theorem C01_bitsets :
-    (∀ c, c < 256 → inRanges Generated.bitset_forbiddenhost c = Spec.forbiddenHostCp c) ∧
-    (∀ c, c < 256 → inRanges Generated.bitset_forbiddendomain c = Spec.forbiddenDomainCp c) ∧
-    (∀ c, c < 256 → inRanges Generated.bitset_alpha c = isAlphaN c) ∧
-    (∀ c, c < 256 → inRanges Generated.bitset_digit c = isDigitN c) ∧
-    (∀ c, c < 256 → inRanges Generated.bitset_hex c = isHexN c) ∧
-    (∀ c, c < 256 → inRanges Generated.bitset_alnum c = isAlnumN c) := by
-  refine ⟨?_, ?_, ?_, ?_, ?_, ?_⟩ <;> intro c hc <;> (revert hc; revert c; decide +kernel)
-
-set_option maxRecDepth 100000 in
-/-- non-vacuity of the conformance statement's two sides on a concrete URL -/
-example : obsImpl (parse {} (fun s => (s, false)) (lit "HTTP://u@[::1]:80/a/../b?q#f")) =
-    obsSpec (Spec.apiParse (specIdna fun s => (s, false)) "HTTP://u@[::1]:80/a/../b?q#f".toList none) := by decide +kernel
 
 end WhatwgUrl.Props.C01
